@@ -30,6 +30,7 @@ ASSUMPTIONS = ["the auxiliary basis, exponent ladder (alpha_min, alpha_max), rad
                "rho < 1e-4 are excluded (the 1e-16 regulariser of s^2 equals rho^(8/3) at rho = 1e-6) from the per-point comparison; cut-offs of the generator and integrator (rhocut, expcut) are transported too; tolerances 3e-7 relative; a wrong power shows as |l^du - 1| >= 0.1"]
 TOL_PW = 1e-11
 TOL_GEN = 3e-7   # per-point features on the exactly scaled system (floor 9e-8: absolute cut-offs rhocut/expcut)
+TOL_FLAPL = 1e-9  # fractional-Laplacian features from the orbitals on the exactly scaled system (measured below)
 TOL_E = 3e-7     # energies / XC matrices (floor 4e-7 for a weakly bound UKS case)
 
 FAMS = ["sl-npa", "sl-nst", "sl-ns", "sl-np", "vj-mgga", "vj-gga", "vi-mgga", "vi-gga", "vij-mgga", "vk-mgga", "vk-gga",
@@ -60,6 +61,11 @@ def gen_cases(tier, seed):
             cases.append({"id": "gen-%03d-%s-%s" % (j, fam, spin), "kind": "gen", "cfg": c, "seed": seed, "idx": 4000 + j,
                           "_threads": 2, "_weight": 5.0 if fam in NLDF else 1.5, "_timeout": 1800})
             j += 1
+    # fractional-Laplacian features through the PySCF path (eval_kao / FLNumInt / get_descriptors) on a scaled molecule
+    nfl = 4 if tier == "quick" else 32
+    for i in range(nfl):
+        cases.append({"id": "flapl-%03d" % i, "kind": "flapl", "seed": seed, "idx": 8000 + i, "_threads": 2, "_weight": 2.0,
+                      "lam": [0.6, 1.7, 2.2, 0.75, 1.3][i % 5], "_timeout": 900})
     return cases
 
 
@@ -67,6 +73,8 @@ def run_case(case, rec):
     rng = rng_for(case["seed"], PROP_NO, case["idx"])
     if case["kind"] == "pw":
         _pw(case, rec, rng)
+    elif case["kind"] == "flapl":
+        _flapl(case, rec, rng)
     else:
         _gen(case, rec, rng)
 
@@ -231,6 +239,86 @@ def _transport_grids(ks1, ksl, mol_l, lam):
     mask = gl.make_mask(mol_l, gl.coords)
     gl.non0tab = mask
     gl.screen_index = mask
+
+
+FL_ORDERS = [-1.0, -0.5, -0.25, 0.25, 0.5, 0.75, 1.0, 1.0 / 3, 0.125, 0.625, 2.0 / 3, 0.28, 0.29, 0.335]
+
+
+def _flapl(case, rec, rng):
+    """F_s[n_lambda](r / lambda) = lambda^u F_s[n](r) for the fractional-Laplacian features computed from the orbitals, with
+    conventional orders (multiples of 1/4) and unusual ones (1/3, 1/8, 0.29 ...: any real order is legal)."""
+    from ciderpress.dft import settings as st
+    from ciderpress.pyscf.analyzers import RHFAnalyzer, UHFAnalyzer
+    from ciderpress.pyscf.descriptors import get_descriptors
+    from pyscf.dft import numint as pn
+    from vlib import gen
+    lam = case["lam"]
+    i = case["idx"]
+    molname = ["H2O", "LiH", "NH2", "HF", "Li"][i % 5]
+    nspin = 2 if molname in ("NH2", "Li") else 1
+    mol1 = gen.make_mol(molname, ["6-31g", "def2-svp", "sto-3g"][i % 3], rng, jitter=0.03 if molname != "Li" else 0.0)
+    mol_l = scaled_mol(mol1, lam)
+    S1, Sl = mol1.intor("int1e_ovlp"), mol_l.intor("int1e_ovlp")
+    T1, Tl = mol1.intor("int1e_kin"), mol_l.intor("int1e_kin")
+    chk = max(float(np.max(np.abs(S1 - Sl))), float(np.max(np.abs(Tl - lam ** 2 * T1))) / max(1.0, float(np.max(np.abs(T1)))))
+    if chk > 1e-10:
+        rec.set_inconclusive("scaled molecule construction not validated (%.2e)" % chk)
+        return
+    nk0 = int(rng.integers(1, 4))
+    slist = [float(x) for x in rng.choice(FL_ORDERS, size=nk0, replace=False)]
+    if i % 4 == 0:
+        # two orders closer than 0.01 in one settings object (each needs its own 1F1 tables)
+        pair = [[0.29, 0.28], [1.0 / 3, 0.335], [0.255, 0.25], [-0.245, -0.25]][(i // 4) % 4]
+        slist = [float(x) for x in pair] + [x for x in slist if x not in pair][: max(0, nk0 - 2)]
+        nk0 = len(slist)
+    if i % 2 == 1 and not any(abs(x * 100 - round(x * 100)) > 1e-9 for x in slist):
+        slist[0] = float(rng.choice([1.0 / 3, 0.125, 0.625, 2.0 / 3, 0.335]))
+    nk1 = int(rng.integers(0, nk0 + 1))
+    nd1 = int(rng.integers(0, nk1 + 1))
+    ndd = int(rng.integers(0, nd1 + 1))
+    pool1 = [(-1, j) for j in range(nk1)] + [(a, b) for a in range(nk1) for b in range(a, nk1)]
+    l1 = [pool1[int(q)] for q in rng.permutation(len(pool1))[: int(rng.integers(0, min(3, len(pool1)) + 1))]] if pool1 else []
+    poold = [(-1, j) for j in range(nd1)] + [(a, b) for a in range(nd1) for b in range(nd1)]
+    ld = [poold[int(q)] for q in rng.permutation(len(poold))[: int(rng.integers(0, min(3, len(poold)) + 1))]] if poold else []
+    if nk0 == 1 and nd1 == 0:
+        # one order without F^d features: eval_flapl_gto drops the component axis and FLNumInt.eval_rho then fails with a
+        # ValueError (section 6 of DESIGN, observations) - no feature is produced, so there is nothing to judge here
+        extra = [x for x in FL_ORDERS if x not in slist]
+        slist.append(float(extra[int(rng.integers(len(extra)))]))
+        nk0 = 2
+    fl = st.FracLaplSettings(slist, nk0, nk1, l1, nd1=nd1, ld_dots=ld, ndd=ndd)
+    rec.tag("lambda", lam)
+    rec.tag("mol", molname)
+    rec.tag("frac_lapl_orders", "conventional" if all(abs(x * 4 - round(x * 4)) < 1e-12 for x in slist) else "unusual")
+    rec.tag("frac_lapl_groups", "nk1=%d,nl1=%d,nd1=%d,nld=%d,ndd=%d" % (nk1, len(l1), nd1, len(ld), ndd))
+    dm = gen.psd_dm(mol1, rng, nspin)
+    Ana = RHFAnalyzer if nspin == 1 else UHFAnalyzer
+    a1, al = Ana(mol1, dm, grids_level=0), Ana(mol_l, dm, grids_level=0)
+    al.grids.coords = np.ascontiguousarray(a1.grids.coords / lam)
+    al.grids.weights = np.ascontiguousarray(a1.grids.weights / lam ** 3)
+    d1 = np.asarray(get_descriptors(a1, fl))
+    dl = np.asarray(get_descriptors(al, fl))
+    d1 = d1.reshape((nspin,) + d1.shape[-2:])
+    dl = dl.reshape((nspin,) + dl.shape[-2:])
+    usps = np.asarray(fl.get_feat_usps(), dtype=float)
+    rec.require("flapl_feature_count", d1.shape[1] == len(usps) == fl.nfeat, mechanism="FracLaplSettings:usps-length")
+    ao = pn.eval_ao(mol1, a1.grids.coords)
+    rho = pn.eval_rho(mol1, ao, dm if nspin == 1 else dm[0] + dm[1])
+    keep = rho > 1e-4
+    worst = 0.0
+    for sp in range(nspin):
+        for k in range(d1.shape[1]):
+            a = d1[sp, k, keep] * lam ** usps[k]
+            b = dl[sp, k, keep]
+            if float(np.sqrt(np.mean(a ** 2))) < 1e-10:
+                continue
+            err = float(np.max(np.abs(a - b))) / max(float(np.max(np.abs(a))), 1e-300)
+            worst = max(worst, err)
+            rec.check("flapl_feature_scaling", err, TOL_FLAPL, mechanism="usp[nlof:%d]" % k,
+                      detail={"lam": lam, "slist": slist, "declared_usp": float(usps[k]), "feature_index": k, "spin": sp,
+                              "apparent_power": float(np.log(np.sqrt(np.mean(b ** 2)) / np.sqrt(np.mean(d1[sp, k, keep] ** 2))) / np.log(lam))})
+            rec.nontrivial("flapl|%s|%d|%d" % (slist, k, sp))
+    rec.set_sample({"kind": "flapl", "lam": lam, "slist": slist, "usps": usps.tolist(), "worst": worst, "npoints": int(keep.sum())})
 
 
 def _gen(case, rec, rng):
